@@ -24,6 +24,7 @@ pub use crate::cache::store::verif_type_of_expiry_update;
 pub use crate::cache::stats::verif_hit_ratio;
 pub use crate::cache::expiration::VerifTicker;
 pub use crate::cache::pool::VerifPool;
+pub use crate::cache::command::acknowledgement::VerifAck;
 
 #[derive(Clone, Copy, Debug, PartialEq, Eq, Hash)]
 pub enum Role { Worker, Sweeper, Consumer, Client(usize) }
@@ -141,6 +142,11 @@ impl Controller {
     /// Registers the current thread as a client thread.
     pub fn register_client(self: &Arc<Controller>, tid: usize) {
         enter(Some(self.clone()), Role::Client(tid));
+    }
+
+    /// Registers the current thread under an arbitrary role (component-level harnesses).
+    pub fn register_as(self: &Arc<Controller>, role: Role) {
+        enter(Some(self.clone()), role);
     }
 
     pub fn role_state(&self, role: Role) -> RoleState {
